@@ -39,6 +39,9 @@ open EasyMl EasyMl.RC
 
 variable {R : Type} [Field R] [RealFns R]
 
+set_option linter.unusedSectionVars false
+set_option linter.unusedSimpArgs false
+
 /-! ### elementwise operations -/
 
 /-- **Every elementwise operation of one container** (`unary`, container ∘ number in both
@@ -70,6 +73,17 @@ theorem container_shape_mismatch (op : BOp R) (a b : Cont R) (w : World R)
     (hs : a.shape ≠ b.shape) : op.container a b w = .panic .explicit := by
   rw [bop_container_eq]
   exact binary_shape_mismatch a b _ _ _ w hs
+
+/-- **container_eq_elementwise** — the two statements above together: for every elementwise
+    container operation, every shape and every variable/constant pairing, the resulting values,
+    positions and final tapes are those of the scalar C04 operators applied element by element
+    in row-major order. -/
+theorem container_eq_elementwise (w : World R) :
+    (∀ (op : UOp R) (c : Cont R), asRecs (op.container c w) = Cont.mapRecs op.scalar c.toRecs w)
+      ∧ (∀ (op : BOp R) (a b : Cont R), a.WF → b.WF → a.shape = b.shape →
+          (op.container a b w).map asRecs = zipRecs op.scalar a.toRecs b.toRecs w) :=
+  ⟨fun op c => (container_eq_elementwise_unary op c w).1,
+   fun op a b ha hb hs => container_eq_elementwise_binary op a b w ha hb hs⟩
 
 /-- the hypotheses are satisfiable: a 1×2 variable container -/
 example : (⟨[("r", 1), ("c", 2)], [((2 : ℚ), 0), (3, 1)], some 0⟩ : Cont ℚ).WF :=
@@ -103,7 +117,10 @@ theorem container_derivatives_eq_scalar (c : Cont R) (w : World R) :
   unfold Cont.derivatives
   cases hh : c.history with
   | none => rfl
-  | some h => simp [Cont.toRecs, hh, List.map_map, Function.comp_def]
+  | some h =>
+    simp only [Cont.toRecs, hh, List.map_map, Function.comp_def]
+    generalize Cont.collectOutcomes _ = o
+    cases o <;> rfl
 
 /-! ### the assigning forms -/
 
@@ -276,7 +293,7 @@ theorem from_iter_rejects_inconsistent (shape : Shape String) (r : Rec R) (rest 
   exact ⟨later, by simp [Cont.fromIterTensor, h], by simp [Cont.fromIterMatrix, h]⟩
 
 example : ∃ x ∈ [Rec.constant (1 : ℚ)], x.history ≠ (⟨2, some 0, 0⟩ : Rec ℚ).history :=
-  ⟨_, by simp, by simp [Rec.constant]⟩
+  ⟨Rec.constant 1, by simp, by simp [Rec.constant]⟩
 
 /-- **`map` / `map_with_index`**: the mapped container is the sequence of records the function
     returns for the elements in row-major order (the function's tape effects are those of the
@@ -299,9 +316,9 @@ theorem map_eq_elementwise (isMatrix : Bool) (c : Cont R)
       subst hc
       split at hcol
       · split at hcol
-        · exact ((from_iter_records _ _ _).2 _ _ _ _ hcol).1
+        · exact ((from_iter_records c.shape _ c'').2 _ _ _ _ hcol).1
         · simp at hcol
-      · exact ((from_iter_records _ _ _).1 hcol).1
+      · exact ((from_iter_records c.shape _ c'').1 hcol).1
     all_goals simp at h
 
 /-- **`map_mut` / `map_mut_with_index`**: every element is overwritten with the record the
